@@ -97,8 +97,24 @@ class Delivery(DExplore):
         return out + delivery_violations(sim, when)
 
 
+# ---- full stack: the same oracle with the real wormholes underneath (dilate-N control traffic through the real mailbox path, mailbox drops/reordering)
+from harness import fullstack as FS  # noqa: E402
+
+FS_CONFIGS = {
+    "fs-one-way": dict(app=True, reorder=True, stoppable=False),
+    "fs-two-way-dilate-late": dict(app=True, both_write=True, dilate_when="late", stoppable=False),
+}
+
+
+class FDelivery(FS.FExplore):
+    configs = FS_CONFIGS
+
+    def violations(self, sim, when):
+        return FS.base_violations(sim) + delivery_violations(sim, when) + FS.app_message_violations(sim, when)
+
+
 def jobs(tier):
-    return make_jobs(Delivery, tier, 2, 3) + make_drandom_jobs(Delivery, tier)
+    return make_jobs(Delivery, tier, 2, 3) + make_drandom_jobs(Delivery, tier) + FS.make_jobs(FDelivery, tier, 2, 3) + FS.make_random_jobs(FDelivery, tier, per_cfg=32)
 
 
 ASSUMPTIONS = [
